@@ -76,17 +76,25 @@ def run(chk):
     # ---- R12.4
     outs = it.run(0)
     stores = {}
-    LAB = re.compile(r"\*\{[^{}]*\}")
+    names_, origin_ = C.iterator_names(b, outs)
+
+    def label_iter_origin(local):
+        nm = names_.get(local)
+        if nm is None:
+            return ""
+        ov, oo = origin_[nm]
+        return forms.Normalizer(it, oo).value_atom(ov)
     for e, o in C.all_calls(outs, lambda e: "IndexMut" in (e[2] or "") and len(e[3]) > 1 and e[3][1][0] == "expr"):
         nz = forms.Normalizer(it, o)
         f = C.show_arg(nz, e[3][1])
         arm = [c[2] for s, c in o.cons.items() if c[0] == "varis" and c[1].endswith("TagFeature")]
+        f = re.sub(r"<core::iter::adapters::enumerate::Enumerate as core::iter::traits::iterator::Iterator>::next\(&_(\d+)\)", lambda m: "LABELS.next()" if "labels(" in label_iter_origin(int(m.group(1))) else "it_%s.next()" % m.group(1), f)
         stores.setdefault(arm[0] if arm else "bias", set()).add(re.sub(r"ret:\d+", "ret:N", f))
     chk.floor("R12.4", "indexed stores", len(stores), 3)
     shapes = set()
     for k, fs in stores.items():
         for f in fs:
-            m = re.fullmatch(r"\*\{ret:N@Some\.0\.1\} \+ (hv:loop\d+:_\d+)", f)
+            m = re.fullmatch(r"\*\{LABELS\.next\(\)@Some\.0\.1\} \+ (hv:loop\d+:_\d+)", f)
             shapes.add(m.group(1) if m else "BAD:" + f)
             chk.ob("R12.4", "store:%s" % k, m is not None, "the %s store of train_tag indexes with `%s`; expected class_offset + label (the label of the liblinear class, not its position)" % (k, f),
                    site=C.site(b), sample={"store": k, "index": f})
